@@ -76,6 +76,7 @@ func (prop) Run(b core.Batch, em *core.Emitter) {
 	var a args
 	json.Unmarshal(b.Args, &a)
 	if a.Mode == "tcp" {
+		limitSizeCap = 4096
 		runTCP(b, a, em)
 	} else {
 		runInproc(b, a, em)
@@ -389,6 +390,13 @@ func mutate(r *core.Rand, typ int, id uint32) ([]byte, string) {
 	return b, class
 }
 
+var bigPosts atomic.Int64
+
+// limitSizeCap bounds the text of the limit-size requests. The TCP monitor runs ~250 hostile sessions at once, where
+// 64 KiB names and comments multiply into user lists and broadcasts of many megabytes; the full range is explored by
+// the in-process monitor (8 hostile sessions per batch).
+var limitSizeCap = 1 << 20
+
 func hostileControl(r *core.Rand) hostileConn {
 	h := hostileConn{port: "ctl"}
 	switch r.Intn(10) {
@@ -409,21 +417,24 @@ func hostileControl(r *core.Rand) hostileConn {
 		// valid login, then a pipeline of mutated transactions
 		login := rc.Tran{Type: 107, ID: 1, Fields: []rc.Field{rc.F(105, rc.Obfuscate([]byte("hostile"))), rc.F(106, nil), rc.FS(102, "Hostile"), rc.F(104, rc.U16(3)), rc.F(160, rc.U16(190))}}
 		h.stream = append(rc.Handshake(), login.Encode()...)
-		n := 1 + r.Intn(25)
 		var classes []string
-		for i := 0; i < n; i++ {
-			typ := core.Pick(r, tranTypes)
-			b, cl := mutate(r, typ, uint32(i+2))
-			h.stream = append(h.stream, b...)
-			classes = append(classes, fmt.Sprintf("%d/%s", typ, cl))
-		}
-		if r.Chance(1, 5) {
-			// well-formed requests that leave state behind, with their main text field at the limits of what one
+		if r.Chance(1, 4) {
+			// sent first, while the session is certainly still alive: well-formed requests that leave state behind, with their main text field at the limits of what one
 			// transaction can carry: what they store is later read by other users' requests
 			n := core.Pick(r, []int{255, 256, 4095, 4096, 32767, 32768, 65000, 65400 + r.Intn(130)})
+			if n > limitSizeCap {
+				n = limitSizeCap
+			}
 			text := bytes.Repeat([]byte{byte('a' + r.Intn(26))}, n)
 			var t rc.Tran
-			switch r.Intn(6) {
+			kind := r.Intn(6)
+			if (kind == 1 || kind == 2) && n > 8192 && bigPosts.Add(1) > 3 {
+				// every post makes the store rewrite its whole file: only a few large ones per server, so that the stores
+				// stay of a size at which the sentinels' deadlines are meaningful
+				n = 4096
+				text = text[:n]
+			}
+			switch kind {
 			case 0:
 				t = rc.Tran{Type: 207, Fields: []rc.Field{rc.FS(201, "file.txt"), rc.F(202, rc.PathS("public")), rc.F(210, text)}}
 			case 1:
@@ -438,8 +449,29 @@ func hostileControl(r *core.Rand) hostileConn {
 				t = rc.Tran{Type: 105, Fields: []rc.Field{rc.F(101, text)}}
 			}
 			t.ID = uint32(n)
+			if r.Chance(1, 3) {
+				// ... or as long as one transaction of at most 65535 bytes lets it be (and up to 47 bytes less)
+				last := len(t.Fields) - 1
+				for i, f := range t.Fields {
+					if len(f.Data) == n {
+						last = i
+					}
+				}
+				over := len(t.Encode()) - n
+				t.Fields[last].Data = text[:0]
+				if room := 65535 - over - r.Intn(48); room > 0 && room <= limitSizeCap {
+					t.Fields[last].Data = bytes.Repeat([]byte{'z'}, room)
+				}
+			}
 			h.stream = append(h.stream, t.Encode()...)
 			classes = append(classes, fmt.Sprintf("%d/limit-size", t.Type))
+		}
+		n := 1 + r.Intn(25)
+		for i := 0; i < n; i++ {
+			typ := core.Pick(r, tranTypes)
+			b, cl := mutate(r, typ, uint32(i+2))
+			h.stream = append(h.stream, b...)
+			classes = append(classes, fmt.Sprintf("%d/%s", typ, cl))
 		}
 		h.class = "mutated:" + strings.Join(classes, ",")
 		h.noRead = r.Chance(1, 6)
@@ -835,7 +867,11 @@ func runTCP(b core.Batch, a args, em *core.Emitter) {
 		// hostile sockets are closed; transfer handlers sleep 3 s before returning: wait for the counters to settle
 		var st map[string]any
 		ok := false
-		for wait := 0; wait < 40; wait++ {
+		// The leftover handlers may still be working through what the hostile sessions asked for (the stores rewrite
+		// their files on every update): the wait goes on as long as the numbers keep moving, and gives up only after
+		// 30 s without any change (or 5 min in total).
+		lastChange, lastSeen, began := time.Now(), "", time.Now()
+		for time.Since(lastChange) < 30*time.Second && time.Since(began) < 5*time.Minute {
 			st, err = ch.stats()
 			if err != nil {
 				break
@@ -845,6 +881,9 @@ func runTCP(b core.Batch, a args, em *core.Emitter) {
 				fmt.Sprint(stats["DownloadsInProgress"]) == "0" && fmt.Sprint(stats["UploadsInProgress"]) == "0" {
 				ok = true
 				break
+			}
+			if seen := fmt.Sprint(st["users"], stats["CurrentlyConnected"], stats["DownloadsInProgress"], stats["UploadsInProgress"]); seen != lastSeen {
+				lastSeen, lastChange = seen, time.Now()
 			}
 			time.Sleep(250 * time.Millisecond)
 		}
@@ -873,7 +912,7 @@ func runTCP(b core.Batch, a args, em *core.Emitter) {
 			dump, _ := os.ReadFile(ch.logPath)
 			var busy []string
 			for _, g := range strings.Split(string(dump), "\n\n") {
-				if strings.Contains(g, "handleNewConnection") && !strings.Contains(g, "[IO wait") {
+				if strings.Contains(g, "handleNewConnection") && !strings.Contains(g, "[IO wait") && strings.Contains(strings.SplitN(g, "\n", 2)[0], " gp=") {
 					if len(g) > 1800 {
 						g = g[:1800]
 					}
@@ -884,7 +923,7 @@ func runTCP(b core.Batch, a args, em *core.Emitter) {
 				busy = busy[:3]
 			}
 			em.Emit(core.Result{Case: fmt.Sprintf("%s/batch%d/residue", b.Name, batch), Class: "residue", Verdict: core.Violated, Key: "C03/state-residue", Obs: obs,
-				Msg: fmt.Sprintf("10 s after every hostile socket of batch %d was closed the server still reports users %v (baseline %s) and stats %v (baseline: %d connected, 0 transfers in progress); connection handlers not waiting for input:\n%s", batch, st["users"], baseUsers, st["stats"], len(sents), strings.Join(busy, "\n\n"))})
+				Msg: fmt.Sprintf("30 s without any change after every hostile socket of batch %d was closed the server still reports users %v (baseline %s) and stats %v (baseline: %d connected, 0 transfers in progress); connection handlers not waiting for input:\n%s", batch, st["users"], baseUsers, st["stats"], len(sents), strings.Join(busy, "\n\n"))})
 			return
 		}
 		// one result per distinct class seen in this batch keeps the evidence honest about what was exercised
